@@ -60,6 +60,21 @@ def run(tier):
                     chk.ok('R1.nm', rel + '@' + cfgname, nontrivial=bool(extra))
     init_rule(chk, Program.load(which=('SRC',), cfg='tested'))
     shared_inputs_rule(chk, Program.load(which=('SRC', 'FORTRAN'), cfg='tested'))
+    # an estimate that was not requested is output-only garbage: it may not decide anything (R3 oracle group `cond` of the expert driver)
+    from . import _drv, _gssvx, _expert
+    from ..rules.effects import PathEffects as _PE
+    _pg = Program.load(which=('SRC',), cfg='tested')
+    _eff = _PE(_pg)
+    chk.clause('C09.cond', 'R3 oracle group `cond` of ?gssvx: rcond is not consulted unless it was computed')
+    for p in _drv.PRECS:
+        f, fl, leaves = _gssvx.leaves_for(_pg, _eff, p, ilu=False, tier='quick', split=('Fact', 'ConditionNumber', 'PivotGrowth', 'info', 'A.Stype', 'Trans'))
+        ctx = _expert.Ctx(_pg, f, fl, p, False)
+        _expert.run_leaf_groups(chk, 'C09', ctx, leaves, ('cond',), 'tested')
+    from ..rules import misc as _misc
+    chk.clause('R1.vii', 'output-only arguments do not steer the computation (usepr only for SamePattern_SameRowPerm)')
+    _ps = Program.load(which=('SRC',), cfg='tested')
+    for p in 'sdcz':
+        _misc.option_choice_rules(chk, 'R1.vii', _ps, p, 'tested')
     from ..rules import reentry
     chk.clause('R1.vi', 'reverse-communication state of ?lacon2 written before read on every call history')
     prog_s = Program.load(which=('SRC',), cfg='tested')
